@@ -814,6 +814,22 @@ class SymExec:
                 self.ctx.pop()
             self.exec_block(st.orelse, fr)
             return
+        # a module-level dispatch table scanned entry by entry:  for name, fn in TABLE.items(): if name == op: ...
+        if isinstance(fit, tuple) and fit[:1] == ('call',) and isinstance(fit[2], tuple) and fit[2][:1] == ('attr',) and \
+                fit[2][2] in ('items', 'keys', 'values') and not fit[3] and not fit[4] and \
+                isinstance(fit[2][1], tuple) and fit[2][1][:2] == ('ref', 'modvar') and len(fit[2][1]) == 3:
+            tab_ = self.modvar_table(fit[2][1][2])
+            if tab_ and len(tab_) <= 32 and all(not isinstance(k_, tuple) for _m, k_, _v in tab_):
+                elts_ = []
+                for _m, k_, _v in tab_:
+                    found_, val_ = self.modvar_table_entry(fit[2][1][2], k_) or (False, None)
+                    if not found_:
+                        elts_ = None
+                        break
+                    kt_ = ('const', k_)
+                    elts_.append(('tuple', kt_, val_) if fit[2][2] == 'items' else kt_ if fit[2][2] == 'keys' else val_)
+                if elts_:
+                    it = ListVal(elts_, self.fresh())
         if isinstance(it, ListVal) and it.concrete() and len(it.elts) <= 32:
             # unroll over a known spine
             try:
